@@ -431,6 +431,7 @@ type Contract struct {
 	Lib      bool
 	File     string
 	Line     int
+	Dyn      [][2]string // function-valued parameters: name -> pure | effectfree | fresh
 	PureFn   string // for library "pure = name" mapping to an SMT function or builtin
 	EffectFree bool
 	HavocAll bool
@@ -442,6 +443,7 @@ type TypeSpec struct {
 	Inv      []*Clause
 	Guarded  map[string]string // field -> mutex field
 	Ghost    map[string]string // ghost field -> type text
+	Dyn      map[string]string // func-typed field -> pure | effectfree | fresh
 }
 
 type SpecFn struct {
@@ -474,7 +476,7 @@ func newSpecDB() *SpecDB {
 
 var clauseKW = map[string]bool{"requires": true, "ensures": true, "modifies": true, "invariant": true, "loop": true, "let": true,
 	"sink": true, "pure": true, "trusted": true, "fresh": true, "typeinv": true, "guarded_by": true, "ghost": true, "noinline": true,
-	"effectfree": true, "havocall": true}
+	"effectfree": true, "havocall": true, "dyn": true, "ghostat": true, "preserves": true}
 
 // parseSpecText parses the //@ lines of one file. pkg is the package path
 // the file belongs to ("" for library/prelude files).
@@ -543,7 +545,7 @@ func (db *SpecDB) parseSpecText(file, pkg string, lines []string, lib bool) {
 			cur, curType, curLoop = c, nil, 0
 		case "type":
 			name := strings.TrimSpace(rest)
-			ts := &TypeSpec{TypeName: name, Pkg: pkg, Guarded: map[string]string{}, Ghost: map[string]string{}}
+			ts := &TypeSpec{TypeName: name, Pkg: pkg, Guarded: map[string]string{}, Ghost: map[string]string{}, Dyn: map[string]string{}}
 			db.Types[pkg+"."+name] = ts
 			curType, cur = ts, nil
 		case "spec":
@@ -617,6 +619,15 @@ func (db *SpecDB) parseSpecText(file, pkg string, lines []string, lib bool) {
 				curType.Ghost[fs[1]] = fs[2]
 			} else {
 				errf(it.line, "ghost field $name type (inside a type block)")
+			}
+		case "dyn":
+			fs := strings.Fields(rest)
+			if len(fs) == 2 && curType != nil {
+				curType.Dyn[fs[0]] = fs[1]
+			} else if len(fs) == 2 && cur != nil {
+				cur.Dyn = append(cur.Dyn, [2]string{fs[0], fs[1]})
+			} else {
+				errf(it.line, "dyn <field|param> pure|effectfree|fresh")
 			}
 		case "loop":
 			fs := strings.Fields(rest)
@@ -696,7 +707,7 @@ func parseClause(kind, rest string) (*Clause, error) {
 		r = strings.TrimSpace(r[j+1:])
 	}
 	// optional name:
-	if j := strings.Index(r, ":"); j > 0 && isIdent(r[:j]) && !strings.HasPrefix(r[j:], "::") {
+	if j := strings.Index(r, ":"); kind != "ghostat" && kind != "preserves" && j > 0 && isIdent(r[:j]) && !strings.HasPrefix(r[j:], "::") {
 		cl.Name = r[:j]
 		r = strings.TrimSpace(r[j+1:])
 	}
@@ -742,6 +753,38 @@ func parseClause(kind, rest string) (*Clause, error) {
 		}
 		cl.Sink = strings.TrimSpace(r[:j])
 		e, err := parseExpr(strings.TrimSpace(r[j+10:]))
+		if err != nil {
+			return nil, err
+		}
+		cl.E = e
+		return cl, nil
+	case "ghostat":
+		// ghostat <site#k>: target = expr
+		j := strings.Index(r, ":")
+		k := strings.Index(r, "=")
+		if j < 0 || k < j {
+			return nil, fmt.Errorf("ghostat site#k: target = expr")
+		}
+		cl.Sink = strings.TrimSpace(r[:j])
+		tgt, err := parseExpr(strings.TrimSpace(r[j+1 : k]))
+		if err != nil {
+			return nil, err
+		}
+		val, err := parseExpr(strings.TrimSpace(r[k+1:]))
+		if err != nil {
+			return nil, err
+		}
+		cl.Mods = []*Expr{tgt}
+		cl.E = val
+		return cl, nil
+	case "preserves":
+		// preserves <site>: expr
+		j := strings.Index(r, ":")
+		if j < 0 {
+			return nil, fmt.Errorf("preserves site: expr")
+		}
+		cl.Sink = strings.TrimSpace(r[:j])
+		e, err := parseExpr(strings.TrimSpace(r[j+1:]))
 		if err != nil {
 			return nil, err
 		}
